@@ -43,6 +43,94 @@ termination_by bytes.size - i
 /-- `Enumerator::next` with `self.offset = off`. -/
 def next (bytes : Bytes) (cfg : Config) (off : Nat) : Option (Found × Nat) := scan bytes cfg off off
 
+/-- every `Some` moves the offset forward and keeps it inside the buffer (why the loops over `next`
+below terminate) -/
+theorem scan_progress (bytes : Bytes) (cfg : Config) (s i : Nat) (f : Found) (off' : Nat) (hsi : s ≤ i)
+    (hi : i ≤ bytes.size) (h : scan bytes cfg s i = some (f, off')) : s < off' ∧ off' ≤ bytes.size := by
+  fun_induction scan bytes cfg s i with
+  | case1 start i hlt b hp ih => exact ih (by omega) (by omega) h
+  | case2 start i hlt b hp hz hlen => cases h; omega
+  | case3 start i hlt b hp hz hlen ih => have := ih (Nat.le_refl _) (by omega) h; omega
+  | case4 start i hlt b hp hz hs hlen => cases h; omega
+  | case5 start i hlt b hp hz hs hlen ih => have := ih (Nat.le_refl _) (by omega) h; omega
+  | case6 start i hlt b hp hz hs ih => have := ih (Nat.le_refl _) (by omega) h; omega
+  | case7 start i hge hc => cases h; omega
+  | case8 start i hge hc => cases h
+
+theorem next_progress {bytes : Bytes} {cfg : Config} {off : Nat} {f : Found} {off' : Nat}
+    (hoff : off ≤ bytes.size) (h : next bytes cfg off = some (f, off')) :
+    off < off' ∧ off' ≤ bytes.size :=
+  scan_progress bytes cfg off off f off' (Nat.le_refl _) hoff h
+
+/-- beyond the end of the buffer `next` answers `None` -/
+theorem next_beyond {bytes : Bytes} {cfg : Config} {off : Nat} (hoff : bytes.size ≤ off) :
+    next bytes cfg off = none := by
+  unfold next scan
+  rw [if_neg (by omega)]
+  simp
+
+theorem next_decreases {bytes : Bytes} {cfg : Config} {off : Nat} {f : Found} {off' : Nat}
+    (h : next bytes cfg off = some (f, off')) : bytes.size - off' < bytes.size - off := by
+  by_cases hoff : bytes.size ≤ off
+  · rw [next_beyond hoff] at h; cases h
+  · have := next_progress (by omega) h; omega
+
+/-- `Enumerator::next` as a transition of the iterator object: the answer and the new `self.offset`.
+`self.offset` is written only on the three `return Some(..)` paths; a `None` leaves it alone. -/
+-- src: strings.rs:Enumerator::next
+def step (bytes : Bytes) (cfg : Config) (off : Nat) : Option Found × Nat :=
+  match next bytes cfg off with
+  | none => (none, off)
+  | some (f, off') => (some f, off')
+
+/-- the answers of `n` consecutive calls of `next` on the iterator standing at `off` -/
+def nexts (bytes : Bytes) (cfg : Config) : Nat → Nat → List (Option Found)
+  | _, 0 => []
+  | off, n + 1 => (step bytes cfg off).1 :: nexts bytes cfg (step bytes cfg off).2 n
+
+/-- `self.offset` once `next` has answered `None` (or after `fuel` calls) -/
+def finalOff (bytes : Bytes) (cfg : Config) : Nat → Nat → Nat
+  | 0, off => off
+  | fuel + 1, off =>
+    match next bytes cfg off with
+    | none => off
+    | some (_, off') => finalOff bytes cfg fuel off'
+
+/-! `Enumerator` is `Iterator + Clone`; only `next` is written by hand, `nth`, `count`, `size_hint`
+are the provided methods of `core::iter::Iterator` (loops over `next`), `clone` is derived. -/
+
+/-- `Iterator::nth` (provided): `self.advance_by(n).ok()?; self.next()` -/
+-- src: core::iter::Iterator::nth
+def nthFound (bytes : Bytes) (cfg : Config) : Nat → Nat → Option Found × Nat
+  | off, 0 => step bytes cfg off
+  | off, k + 1 =>
+    match next bytes cfg off with
+    | none => (none, off)
+    | some (_, off') => nthFound bytes cfg off' k
+
+/-- `Iterator::count` (provided): a loop over `next` -/
+-- src: core::iter::Iterator::count
+def countFound (bytes : Bytes) (cfg : Config) (off n : Nat) : Nat :=
+  match h : next bytes cfg off with
+  | none => n
+  | some (_, off') =>
+    have := next_decreases h
+    countFound bytes cfg off' (n + 1)
+termination_by bytes.size - off
+
+/-- `Iterator::size_hint` (provided): `(0, None)` -/
+-- src: core::iter::Iterator::size_hint
+def sizeHintFound (_bytes : Bytes) (_cfg : Config) (_off : Nat) : Nat × Option Nat := (0, none)
+
+/-- `it.clone().collect()`: everything the iterator standing at `off` still yields -/
+def itemsFrom (bytes : Bytes) (cfg : Config) (off : Nat) : List Found :=
+  match h : next bytes cfg off with
+  | none => []
+  | some (f, off') =>
+    have := next_decreases h
+    f :: itemsFrom bytes cfg off'
+termination_by bytes.size - off
+
 /-- `enumerate(..).collect()`: repeated `next` until `None`; `diverge` when the fuel runs out. -/
 def enumAll (bytes : Bytes) (cfg : Config) : Nat → Nat → Out (List Found)
   | 0, _ => .diverge
